@@ -411,7 +411,9 @@ pub fn field_replacements(b: &Base) -> Vec<Scenario> {
     };
     for t in [RecordType::AAAA, RecordType::TXT, RecordType::A] {
         if t != b.qtype {
-            remade(format!("type covered -> {t}"), SigSpec { type_covered: Some(t), ..honest_spec.clone() }, &signer_key);
+            // hickory's signer would sign an empty record list here (it filters by type covered), so
+            // this one is made over the reference signed data
+            remade(format!("type covered -> {t}"), SigSpec { type_covered: Some(t), reference_tbs: true, ..honest_spec.clone() }, &signer_key);
         }
     }
     for l in 0..=n_labels + 1 {
